@@ -1,13 +1,17 @@
-// ---- prelude/identspecs.rs: trusted specs for the std / regex calls of into_identifier (char-level model)
-#[verifier::external_type_specification]
-#[verifier::external_body]
-pub struct ExRegex(Regex);
+// ---- prelude/rwspecs.rs: std / regex functions the rewrite pass uses (copied from prelude/identspecs.rs where shared)
 #[verifier::external_type_specification]
 #[verifier::external_body]
 pub struct ExRegexBuilder(RegexBuilder);
 #[verifier::external_type_specification]
 #[verifier::external_body]
 pub struct ExRegexError(regex::Error);
+#[verifier::external_type_specification]
+#[verifier::external_body]
+pub struct ExRegexSetBuilder(RegexSetBuilder);
+
+pub uninterp spec fn regex_text(r: &Regex) -> Seq<char>;
+pub assume_specification<'a>[ Regex::as_str ](r: &'a Regex) -> (s: &'a str)
+    ensures s@ == regex_text(r);
 
 // -- strip_prefix / strip_suffix / starts_with / ends_with on chars and string literals, at char level
 pub uninterp spec fn pat_chars<P>(p: P) -> Seq<char>;
@@ -39,47 +43,6 @@ pub assume_specification<'a, P: std::str::pattern::Pattern>[ str::strip_suffix::
         None => !suffix_of(pat_chars(p), s@),
     };
 
-// -- case folding (Unicode to_lowercase; uninterpreted)
-pub uninterp spec fn lower(s: Seq<char>) -> Seq<char>;
-pub assume_specification[ str::to_lowercase ](s: &str) -> (r: String) ensures r@ == lower(s@);
-// -- ASCII case folding: 'A'..'Z' -> 'a'..'z', every other char unchanged (what "ASCII-case-insensitive" folds)
-pub open spec fn ascii_lower_char(c: char) -> char { if 'A' <= c && c <= 'Z' { ((c as u8) + 32) as char } else { c } }
-pub open spec fn ascii_lower(s: Seq<char>) -> Seq<char> { s.map_values(|c: char| ascii_lower_char(c)) }
-pub assume_specification[ str::to_ascii_lowercase ](s: &str) -> (r: String) ensures r@ == ascii_lower(s@);
-
-// -- &s[a..b]: byte offsets; panics unless a <= b <= len and both are char boundaries
-pub uninterp spec fn char_boundary(s: Seq<char>, byte_off: int) -> bool;
-pub uninterp spec fn byte_slice(s: Seq<char>, a: int, b: int) -> Seq<char>;
-// an ASCII first/last char occupies exactly one byte; byte length >= char count
-pub broadcast axiom fn axiom_boundary_after_ascii_first(s: Seq<char>)
-    requires s.len() > 0, (s[0] as u32) < 128,
-    ensures #[trigger] char_boundary(s, 1);
-pub broadcast axiom fn axiom_boundary_before_ascii_last(s: Seq<char>)
-    requires s.len() > 0, (s[s.len() - 1] as u32) < 128,
-    ensures #[trigger] char_boundary(s, bytes(s).len() - 1);
-pub broadcast axiom fn axiom_bytes_len_ge_chars(s: Seq<char>)
-    ensures #[trigger] bytes(s).len() >= s.len();
-// slicing off an ASCII first and last char at byte level is the char-level subrange
-pub broadcast axiom fn axiom_byte_slice_inner(s: Seq<char>)
-    requires s.len() >= 2, (s[0] as u32) < 128, (s[s.len() - 1] as u32) < 128,
-    ensures #[trigger] byte_slice(s, 1, bytes(s).len() - 1) == s.subrange(1, s.len() - 1);
-pub broadcast axiom fn axiom_byte_slice_full(s: Seq<char>)
-    ensures #[trigger] byte_slice(s, 0, bytes(s).len() as int) == s;
-
-#[verifier::external_body]
-pub fn str_slice<'a>(s: &'a str, a: usize, b: usize) -> (r: &'a str)
-    requires a <= b <= bytes(s@).len(), char_boundary(s@, a as int), char_boundary(s@, b as int),
-    ensures r@ == byte_slice(s@, a as int, b as int),
-{
-    &s[a..b]
-}
-#[verifier::external_body]
-pub fn str_full<'a>(s: &'a String) -> (r: &'a str)
-    ensures r@ == s@,
-{
-    &s[..]
-}
-
 // -- regex building (language uninterpreted: what is pinned is which pattern text and flag reach the builder)
 pub uninterp spec fn regex_of(pattern: Seq<char>, insensitive: bool) -> Option<Regex>;
 pub uninterp spec fn rb_pattern(b: RegexBuilder) -> Seq<char>;
@@ -91,11 +54,17 @@ pub assume_specification<'a>[ RegexBuilder::case_insensitive ](b: &'a mut RegexB
 pub assume_specification[ RegexBuilder::build ](b: &RegexBuilder) -> (r: std::result::Result<Regex, regex::Error>)
     ensures match r { Ok(re) => regex_of(rb_pattern(*b), rb_ci(*b)) == Some(re), Err(_) => regex_of(rb_pattern(*b), rb_ci(*b)) is None };
 
-pub assume_specification[ <String as PartialEq<str>>::eq ](a: &String, b: &str) -> (r: bool)
-    ensures r == (a@ == b@);
 
-// which build this unit was generated for (the unit is verified once per cfg: `verus --cfg feature="ignore_case"`)
-pub open spec fn cfg_ignore_case() -> bool { cfg!(feature = "ignore_case") }
+// RegexSetBuilder: which patterns and flag reach the builder is not modelled (the set language is uninterpreted);
+// build() may fail
+pub assume_specification<I: IntoIterator<Item = S>, S: AsRef<str>>[ RegexSetBuilder::new::<I, S> ](patterns: I) -> (b: RegexSetBuilder);
+pub assume_specification<'a>[ RegexSetBuilder::case_insensitive ](b: &'a mut RegexSetBuilder, yes: bool) -> (r: &'a mut RegexSetBuilder);
+pub assume_specification[ RegexSetBuilder::build ](b: &RegexSetBuilder) -> (r: std::result::Result<RegexSet, regex::Error>);
 
-pub broadcast axiom fn axiom_to_string_str(x: &str, r: String)
-    requires #[trigger] vstd::string::to_string_from_display_ensures::<str>(x, r), ensures r@ == x@;
+// String::to_owned (the blanket ToOwned impl carries no vstd postcondition: expression hole)
+#[verifier::external_body]
+pub fn string_to_owned(s: &String) -> (r: String)
+    ensures r == *s,
+{
+    s.to_owned()
+}
